@@ -197,6 +197,28 @@ def run_variants(variants, src_root=None, jobs=16, only=None):
         return list(ex.map(_eval, [(v.vid, src_root, only) for v in variants]))
 
 
+def consulted_modules(prop: str) -> set:
+    """modules in which the rules of `prop` look anything up on the current tree"""
+    from mpsa import loader
+
+    saved = loader.LOOKUP_LOG
+    loader.LOOKUP_LOG = set()
+    loader.CLASS_LOOKUP_LOG = set()
+    try:
+        repo = Repo(Path(os.environ.get('MPSA_REPO') or '/repo'))
+        ck = Checker(prop, repo, 'quick')
+        try:
+            importlib.import_module(f'rules.{prop.lower()}').run(ck)
+        except Exception:  # noqa: BLE001
+            return set()
+        mods = {rel for rel, _ in loader.LOOKUP_LOG} | set(loader.CLASS_LOOKUP_LOG)
+        mods |= {k.split('::')[0] for k in getattr(ck, 'analysed', {})}
+        return mods
+    finally:
+        loader.LOOKUP_LOG = saved
+        loader.CLASS_LOOKUP_LOG = None
+
+
 def thorough_for(prop: str, seed: int = 0):
     """Self-test restricted to one property: its mutants must be reported by THIS property's check, every
     equivalent rewrite that lists it must leave THIS check silent.  Returns (summary dict, failures)."""
@@ -205,11 +227,20 @@ def thorough_for(prop: str, seed: int = 0):
     from selftest.catalogue import VARIANTS
 
     vs = [v for v in VARIANTS if prop in v.props and (v.kind == 'E' or any(r.startswith(prop) for r in v.rules) or not v.rules)]
+    # whole-module rewrites of a module that no rule of this property consults cannot change its verdict: left out here
+    # (the full self-test, selftest/run.py, runs every variant against all 20 checks)
+    consulted = consulted_modules(prop)
+    n_all = len(vs)
+    if consulted:
+        vs = [v for v in vs if not (v.kind == 'E' and v.func is None and v.module != '*' and f'{PKG_REL}/{v.module}' not in consulted)]
+    left_out = n_all - len(vs)
     random.Random(seed).shuffle(vs)
     res = run_variants(vs, only=prop)
     failed = [r for r in res if r['verdict'] == 'FAILED']
     summary = {
         'selftest_variants': len(res),
+        'selftest_left_out_other_modules': left_out,
+        'selftest_modules_consulted': sorted(consulted),
         'selftest_mutants_reported': sum(1 for r in res if r['kind'] == 'M' and r['verdict'] == 'ok'),
         'selftest_equivalents_silent': sum(1 for r in res if r['kind'] == 'E' and r['verdict'] == 'ok'),
         'selftest_skipped': [f"{r['vid']}: {r['detail']}" for r in res if r['verdict'] == 'skipped'],
